@@ -10,6 +10,9 @@ import numpy as np
 from nssverif import par, use_repo, pipeline, sky
 from nssverif.f64 import bits
 from nssverif.kit import PropertyRun
+from nssverif.bufs import Reuse
+
+BUF = Reuse()     # argument arrays persist across mcintegral calls (refilled): identity-keyed state must not matter
 
 
 def _ev(beta, theta, cosTrV, path, pexit, lenDec, trig, cosEff, dark, contrib=0.0):
@@ -64,8 +67,8 @@ def direct_diffuse(job):
             pexit[rng.random(nv) < 0.1] = 1.0
             norm, wsum = (1.0, 1.0) if k % 3 == 0 else (float(10 ** rng.uniform(-3, 3)), float(10 ** rng.uniform(-3, 3)))
             lenDec = rng.uniform(0, 50, nv)
-            res = g.mcintegral(trig.copy(), cosArg if np.isscalar(cosArg) else cosArg.copy(), pexit.copy(), thr, norm, wsum,
-                               lenDec=lenDec, method=method)
+            res = g.mcintegral(BUF("trig", trig), cosArg if np.isscalar(cosArg) else BUF("cos", cosArg), BUF("pexit", pexit), thr, norm, wsum,
+                               lenDec=BUF("lenDec", lenDec), method=method)
             events.append({
                 "kind": "mc", "run": _run("Diffuse", method, g.sun_moon_cut, len(g.betaTrSubN), g.core_alt, g.earth_radius,
                                           g.mcnorm, thr, norm, wsum),
@@ -129,7 +132,8 @@ def _target_calls(g, cfg, spec, rng, ncalls, rethrow):
             lenDec[(s3 >= 0.1) & (s3 < 0.2)] = 0.0
             norm, wsum = (1.0, 1.0) if k % 3 == 0 else (float(10 ** rng.uniform(-3, 3)), float(10 ** rng.uniform(-3, 3)))
             stored = {}
-            res = g.mcintegral(trig.copy(), cosArg, pexit.copy(), thr, norm, wsum, lenDec=lenDec.copy(), method=method,
+            res = g.mcintegral(BUF("trig", trig), cosArg if np.isscalar(cosArg) else BUF("cos", cosArg), BUF("pexit", pexit), thr, norm, wsum,
+                               lenDec=BUF("lenDec", lenDec), method=method,
                                store=lambda names, cols: stored.update(zip(names, cols)))
             contrib = np.asarray(list(stored.values())[0]) if stored else None
             events.append({
